@@ -50,6 +50,10 @@ C = {
    "Kernel-checked over all histories and all directory contents: files a run does not target are untouched, an existing skip_exists file is never rewritten, every other target equals a fresh generation into an empty directory (given distinct target paths), a missing skip_exists file is created; the default layout has exactly one skip_exists template governed by --regenerate-configureapi (table regenerated from DefaultSectionOpts). Tie: real histories of swagger generate runs and user edits, every step compared with the model's prediction and with a fresh generation.",
    "proof (Coq 8.16) by induction over histories + real-history correspondence",
    "Modelled: GenOpts.write/skip_exists as an abstract path->content machine. Exercised, not modelled: OS file semantics, template rendering."),
+ "C16": ("proof", "5.16", "rocq-scan",
+   "Kernel-checked on the fragment of Scan/GoTypes.v (strings, booleans, integers of every width, pointers, slices, arrays, string-keyed maps, nested structs, json names and omitempty; any depth): every value of a model type, with nil only in pointer or omitempty struct fields, is encoded by encoding/json as a document the scanned definition accepts (C16_encoding_accepted); every document the definition accepts decodes into the type (C16_accepted_decodes); the JSON keys of the encoding are property names of the definition (C16_keys); the nil hypothesis is shown necessary (C16_refuted_nil_slice = known finding). Tie, every run: ~180 generated model types are compiled; codescan.Run scans them; a reflection driver marshals zero/full/max/min/empty/random values and decodes 28 mutated documents per type; model scan/encode/sval/decodes vs the scanned definition, the real encodings, the reference verdicts and the real decoding verdicts. Outside the fragment (floats, time.Time, named types, ,string, embedded structs, interface{}, RawMessage, []byte) the property oracle runs on the implementation only.",
+   "proof on fragment (Coq 8.16) + compiled-type correspondence + encode/validate/decode oracle",
+   "Modelled: codescan/schema.go buildFromType/buildFromStruct/parseJSONTag and swaggerSchemaForType on the fragment, encoding/json Marshal and Unmarshal acceptance. Dependencies: go/packages loading, encoding/json, Go compiler."),
  "C19": ("proof", "5.19", "rocq-yaml",
    "Kernel-checked for integers of any size: the decimal text both renderings share parses back to the same integer and is injective (no 2^53 cliff), tied to Go's rendering by a correspondence run. PARTIAL: YAML block structure and the scalar quoting rules of yaml.v3 / swag.JSONMapSlice are dependencies, exercised rather than modelled: every spec-emitting command (flatten, expand, mixin, generate spec, init spec) x {json,yaml} input x {json,yaml} output x compact/pretty on documents carrying every class of ambiguous scalar; YAML outputs reloaded with the loader go-swagger itself uses and compared as exact JSON values.",
    "proof (Coq 8.16, integer text) + exhaustive-by-class CLI differential oracle",
@@ -79,6 +83,7 @@ ENG = {
  "rocq-models": ("/verif/coq (Sem/Schema*.v) + /verif/harness/cmd/modelcheck", "Coq 8.16 semantics of the schema fragment and of generated models; compiled-model harness"),
  "rocq-server": ("/verif/coq (Tools/GenServer*.v) + /verif/harness/cmd/servercheck", "Coq 8.16 model of parameter binding, collection formats, response dispatch and the security gate; generated server+client compiled and driven in-process"),
  "rocq-names": ("/verif/coq (Tools/Names*.v) + /verif/harness/cmd/{namecheck,servercheck}", "Coq 8.16 model of name mangling and the naming plan; name/plan correspondence; generate-and-build harness over name slots and collisions"),
+ "rocq-scan": ("/verif/coq (Scan/*.v) + /verif/harness/cmd/scancheck", "Coq 8.16 model of Go model types, encoding/json and codescan; generated Go packages scanned by codescan.Run and exercised by a compiled reflection driver"),
  "rocq-fs": ("/verif/coq (Tools/Regen*.v) + /verif/harness/cmd/regencheck", "Coq 8.16 file-system history machine; real-history harness"),
 }
 extra = os.path.join(V, "tools", "manifest_extra.json")
